@@ -83,9 +83,9 @@ META["C10"] = dict(
     technique="Lean 4 proof over hand model + differential correspondence",
 )
 META["C11"] = dict(
-    text="Lean 4 theorems that no frame sequence makes a router panic, spin or stop: poll of both routers returns for every state and input (c11_reqrep_total, c11_pubsub_total), frames of unexpected kinds from requestors are skipped and from repliers discarded without touching anybody (c11_unexpected_*), a request refused by the replier's sink (over the limit once tagged) is dropped and the replier stays bound; the real routers are fed such frames in a guarded child and compared with the model",
+    text="Lean 4 theorems that no frame sequence makes a router panic, spin or stop: poll of both routers returns for every state and input (c11_reqrep_total, c11_pubsub_total), frames of unexpected kinds from requestors are skipped and from repliers discarded without touching anybody (c11_unexpected_*), a request refused by the replier's sink (over the limit once tagged) is dropped and the replier stays bound; registration: c11_ok_means_served (Ok => socket enqueued to a router of that role's pattern), c11_refusal_has_code, c11_registry_isolation, c11_non_registration_closed; the real routers are fed such frames in a guarded child and compared with the model",
     design_ref="DESIGN.md section 6, C11",
-    note="router half proved; registration half (handle_stream) modelled in Server/Registry.lean and exercised end to end when present",
+    note="router half and registration half (handle_stream decision logic, Server/Registry.lean) proved on hand models; tied to the code by the reqrep/pubsub trace suites and by raw-peer end-to-end cases",
     technique="Lean 4 totality / termination proofs + guarded-child differential correspondence",
 )
 
@@ -101,6 +101,13 @@ META["C04"] = dict(
     design_ref="DESIGN.md section 6, C04",
     note="trusts tokio oneshot/timeout and the transport; cross-stream isolation is C02",
     technique="Lean 4 invariant proof over hand model + end-to-end differential correspondence",
+)
+
+META["C17"] = dict(
+    text="Lean 4 theorems over a transition system of registration tasks, one global lock and per-topic bounded channels, parameterised by facts the translator reads from handle_stream (is an awaited send inside the lock guard's scope?): c17_lock_holder_never_blocked (in every reachable state the task holding the lock has an enabled step), c17_other_topic_progress (a registration for a topic with room completes in five of its own steps whatever any other topic's channel holds), lock invariant by induction; the stall itself is exhibited end to end (non-reading subscriber, over-full channel, probe on another topic)",
+    design_ref="DESIGN.md section 6, C17",
+    note="proof of the lock/queue discipline; QUIC flow control and tokio scheduling are exercised, not proved",
+    technique="Lean 4 invariant proof over a task/lock model with source-extracted structure + end-to-end stall scenario",
 )
 
 _PENDING = "not built yet in this session; planned at proof level (DESIGN.md section 6) — will be claimed as soon as its first theorem and correspondence suite exist"
